@@ -202,6 +202,25 @@ def energy_relations(rng, tier):
             ev.append(rel("C16:6x6=4th-rank(bohm)[grid quadrature]", tag, float(dg.strainEnergyBohm2ndRank(r)), float(dg.strainEnergyBohm(r)), "eq", rtol=1e-7))
             ev.append(rel("C16:6x6=4th-rank(homogeneous)", tag, float(d.strainEnergyEllipsoid2ndRank(r)), float(d.strainEnergyEllipsoid(r)), "eq", rtol=1e-7))
             ev.append(rel("C16:inversion-routines-agree", tag, float(mk(ohm="numpy").compute(r)), E, "eq", rtol=1e-8))
+            # shear eigenstrain and a general rotation of the cubic matrix (both couple normal and shear components): the four routines
+            # (4th rank / 6x6, homogeneous / Bohm) on the symmetric grid and on the default rule
+            sh = [[eig[0], 0.4 * eig[1], 0.0], [0.4 * eig[1], eig[1], 0.2 * eig[2]], [0.0, 0.2 * eig[2], eig[2]]]
+            rot = random_rotation(rng)
+            for qd in ("grid", "lebedev"):
+                for nm, kw in (("shear eigenstrain", dict(eigv=sh, prec=False)), ("general rotation", dict(rot=rot, prec=False)),
+                               ("shear eigenstrain, different precipitate stiffness", dict(eigv=sh, prec=True)),
+                               ("general rotation, different precipitate stiffness", dict(rot=rot, prec=True))):
+                    dd = mk(quad=qd, **kw).description
+                    e4, e2 = float(dd.strainEnergyEllipsoid(r)), float(dd.strainEnergyEllipsoid2ndRank(r))
+                    b4, b2 = float(dd.strainEnergyBohm(r)), float(dd.strainEnergyBohm2ndRank(r))
+                    ev.append(rel("C16:6x6=4th-rank(homogeneous)[%s, %s]" % (nm, qd), tag, e2, e4, "eq", rtol=1e-9))
+                    ev.append(rel("C16:6x6=4th-rank(bohm)[%s, %s]" % (nm, qd), tag, b2, b4, "eq", rtol=1e-9))
+                    if not kw["prec"]:
+                        ev.append(rel("C16:bohm-reduces-to-homogeneous[%s, %s]" % (nm, qd), tag, b4, e4, "eq", rtol=1e-9))
+            ev.append(rel("C16:invert4rankTensor(double contraction)", tag,
+                          float(np.max(np.abs(np.tensordot(EF.invert4rankTensor(EF.convert2To4rankTensor(EF.elasticConstantToC(c11, c12, c44))),
+                                                           EF.convert2To4rankTensor(EF.elasticConstantToC(c11, c12, c44)), axes=[[2, 3], [0, 1]])
+                                               - 0.5 * (np.einsum("ik,jl->ijkl", np.eye(3), np.eye(3)) + np.einsum("il,jk->ijkl", np.eye(3), np.eye(3)))))), 0.0, "eq", atol=1e-9))
             hom = mk(prec=False)
             ev.append(rel("C16:bohm-reduces-to-homogeneous", tag, float(hom.description.strainEnergyBohm(r)), float(hom.description.strainEnergyEllipsoid(r)), "eq", rtol=1e-8))
             # isotropic matrix + sphere: closed form, spherical approximation, orientation independence
